@@ -8,7 +8,7 @@ use serde_json::json;
 const RULE: &str = "cases = (haystack bytes, needle bytes); oracle = naive windowed search (lowest / highest offset) for the byte functions through all applicable pattern kinds ([u8], [u8;N] N<=4, str, char), str::find/rfind/contains/split_once/rsplit_once for the string functions; derived functions must return the sub-slice cut at that offset (address+length); empty needle: forward find = Some(0), *_skip/*_keep = Some(this), split_once as std (rfind(\"\") offset not compared); non-trivial = needle occurs and (needle has a proper border or its first byte occurs before the first match), distinct by (haystack,needle)";
 
 #[derive(Serialize, Deserialize, Debug, Clone, Hash)]
-struct Case {
+pub struct Case {
     hay: Vec<u8>,
     needle: Vec<u8>,
 }
@@ -138,7 +138,7 @@ macro_rules! str_kind {
     }};
 }
 
-fn run_case(c: &Case) -> Result<(), String> {
+pub fn run_case(c: &Case) -> Result<(), String> {
     let (h, n): (&[u8], &[u8]) = (&c.hay, &c.needle);
     let e = expect(h, n);
     bytes_kind!("[u8]", h, n, n, &e);
@@ -278,7 +278,7 @@ fn explore(ctx: &mut Ctx) {
 }
 
 /// random case: haystack = random symbols with the needle (or a near-miss prefix of it) planted
-fn fold_case((h, n, extra, plant): &(Vec<u8>, Vec<u8>, Vec<u8>, bool)) -> Case {
+pub fn fold_case((h, n, extra, plant): &(Vec<u8>, Vec<u8>, Vec<u8>, bool)) -> Case {
     let m = |x: &u8| b"abcd"[*x as usize];
     let mut hay: Vec<u8> = h.iter().map(m).collect();
     let needle: Vec<u8> = n.iter().map(m).collect();
